@@ -21,6 +21,10 @@ if os.path.exists(na_path):
             NOT_APPLICABLE_REASONS[pid] = reason
 
 
+# only checks listed in checks/enabled.txt are claimed (others may still be under development)
+ENABLED = set(open(os.path.join(VERIF, "checks", "enabled.txt")).read().split())
+
+
 def hook_commits():
     try:
         out = subprocess.run(["git", "-C", "/repo", "log", "--format=%H %s"], stdout=subprocess.PIPE, check=True).stdout.decode()
@@ -33,7 +37,7 @@ checks = []
 na = []
 for p in props:
     pid = p["id"]
-    c = registry.CHECKS.get(pid)
+    c = registry.CHECKS.get(pid) if pid in ENABLED else None
     if c is None:
         na.append({"property_id": pid, "reason": NOT_APPLICABLE_REASONS.get(pid, "no runtime-monitoring check has been built for this property yet; not claimed")})
         continue
